@@ -31,6 +31,11 @@ def flags(stage_dir):
     out.append(("flags-assigned-only-there", len(re.findall(r"\btok_init_p\s*=[^=]", n)) == 2 and len(re.findall(r"\bparse_init_p\s*=[^=]", n)) == 2, "no other assignment to the flags"))
     out.append(("flags-volatile", re.search(r"volatile int tok_init_p, parse_init_p;", n) is not None,
                 "the two flags are volatile (their values in the handler are the last written ones: C11 7.13.2.1; assumption A3 holds by the language)"))
+    # the one-parse flag handed to the error branch (unwind_parse_c) is the value read from the object before the setjmp test
+    i_save = n.find("saved_one_parse_p = grammar->one_parse_p;")
+    out.append(("oneparse-saved-before-setjmp", 0 <= i_save < i_setjmp and len(re.findall(r"\bsaved_one_parse_p\s*=[^=]", n)) == 1,
+                "the one-parse flag is read from the object once, before the setjmp test (make_parse changes it for the time of its work)"))
+    out.append(("oneparse-saved-volatile", re.search(r"volatile int saved_one_parse_p;", n) is not None, "the saved value is volatile (defined in the handler)"))
     out.append(("fin-after-last-exit", n.rfind("yaep_parse_fin (); tok_fin (); return 0;") > n.rfind("make_parse"), "success path finalises parse storage then token storage then returns 0"))
     return out
 
